@@ -21,7 +21,7 @@ def check(repo, rep):
     rep.cx = cx
     W = lambda n: cx.where('core', n)
     # ---------------------------------------------------------------- nullness of read results reaching a region (D4)
-    sites, opt = check_nullness(cx, rep, lambda f: f['mod'] == 'core')
+    sites, opt = check_nullness(cx, rep, lambda f: cx.in_module(f['mod'], 'core'))
     # ---------------------------------------------------------------- save()
     sl = cx.leaves('core', 'AudioRegion.save')
     sfn = cx.fn('core', 'AudioRegion.save')
@@ -197,6 +197,8 @@ def check(repo, rep):
             v = l.value
             ok = v[0] == 'call' and term_name(v[1]).endswith('to_array') and v[2][:1] == (('attr', ('self',), 'data'),)
             rep.ob('numpy() decodes the region\'s own bytes with to_array (C07: shape (channels, samples), signed integers)', ok, W(l.node), 'AudioRegion.numpy', 'returns %s' % show(v)[:100])
+    from .c09 import check_guess_format
+    check_guess_format(cx, rep)          # savers and loaders dispatch on the normalised format name
     check_roles(cx, rep, lambda p: p['func'] in ('AudioRegion.save', 'to_file', '_save_wave', '_save_with_pydub', '_load_wave', '_load_raw', 'from_file', 'WaveAudioSource.__init__', '_read_offline', '_read_chunks_online',
                                                  'AudioRegion.load', 'AudioRegion.numpy', 'get_audio_source', '_get_audio_parameters'), floor=40)
     from . import c09
